@@ -8,8 +8,9 @@
    the implementation in harness/vh/c13.py and are not theorems here. *)
 From Coq Require Import ZArith Reals List Bool.
 From PsdV Require Import Composite.Scalar Composite.Model Composite.Spec Composite.Geometry Composite.Doc
-  Composite.ProofsKernel Composite.ProofsGeometry Composite.ProofsLaws Composite.ProofsDoc Composite.ProofsViewport
-  Composite.ProofsInsert Composite.ProofsWrap.
+  Composite.ProofsKernel Composite.ProofsGeometry Composite.ProofsLaws Composite.ProofsLawsNS Composite.ProofsSim
+  Composite.ProofsDoc Composite.ProofsViewport
+  Composite.ProofsInsert Composite.ProofsWrap Composite.Plane Composite.ProofsPlane Composite.ProofsNoopDoc.
 Import ListNotations.
 
 (* ---------------- geometry: _intersect and paste (index arithmetic on Z) *)
@@ -101,9 +102,9 @@ Print Assumptions finish_respects_equivalence.
 
 (* removing shape-0 leaves anywhere in an element tree (inside groups, inside clipping runs) is sound *)
 Theorem dropping_null_elements_is_sound (l' l : list (elem ROps)) :
-  sim l' l -> Forall wf l' -> Forall wf l ->
+  ProofsSim.sim true l' l -> Forall wf l' -> Forall wf l ->
   forall s t, Inv s -> Inv t -> peq s t -> peq (apply_list l' s) (apply_list l t).
-Proof. exact (proj1 sim_sound l' l). Qed.
+Proof. exact (sim_sound_peq l' l). Qed.
 Print Assumptions dropping_null_elements_is_sound.
 
 (* ---------------- pass-through wrapping *)
@@ -188,6 +189,58 @@ Proof.
     unfold is_byte, attrs_ok, bytes_ok; cbn; repeat constructor; unfold is_byte; try Lia.lia.
 Qed.
 
+(* ---------------- no-op layers inserted ANYWHERE: any positions of any sibling lists, inside groups at any
+   depth, inside clipping runs (as clipping layers); [ins b x y k l' l] = l' is l with layers inserted that
+   are null at the pixel (x, y).  The one side condition, built into [ins]: a non-clipping layer is not
+   inserted directly below clipping layers (it would become their base - a restructuring, not a no-op). *)
+(* strength b = true: hidden, pixel outside the layer's (group's) box - e.g. outside the viewport -, alpha 0
+   at the pixel.  Every document, every viewport containing the pixel: shape, alpha and alpha*colour agree. *)
+Theorem noop_insert_document (l' l : list layer) vp cb ab x y k :
+  ins true x y k l' l -> Forall layer_ok l' -> Forall layer_ok l -> unit cb -> unit ab -> inside vp x y = true ->
+  result_eq (@composite_doc ROps vp cb ab l' x y k) (@composite_doc ROps vp cb ab l x y k).
+Proof. exact (ProofsNoopDoc.noop_insert_document l' l vp cb ab x y k). Qed.
+Print Assumptions noop_insert_document.
+
+(* strength b = false: additionally opacity 0 / fill opacity 0 layers and groups (they keep their SHAPE, which
+   only the knockout formulas read): knockout-free documents, alpha and alpha*colour agree. *)
+Theorem noop_insert_document_alpha (l' l : list layer) vp cb ab x y k :
+  ins false x y k l' l -> Forall layer_ok l' -> Forall layer_ok l ->
+  Forall layer_kofree l' -> Forall layer_kofree l -> unit cb -> unit ab -> inside vp x y = true ->
+  let '(C', _, al') := @composite_doc ROps vp cb ab l' x y k in
+  let '(C, _, al) := @composite_doc ROps vp cb ab l x y k in
+  al' = al /\ al' * C' = al * C.
+Proof. exact (ProofsNoopDoc.noop_insert_document_alpha l' l vp cb ab x y k). Qed.
+Print Assumptions noop_insert_document_alpha.
+
+(* which layers are null at a pixel *)
+Theorem null_if_hidden b x y k (N : layer) : at_vis (attrs_of N) = false -> noop_at b x y k N.
+Proof. exact (ProofsNoopDoc.noop_hidden b x y k N). Qed.
+Theorem null_if_outside_box b x y k (N : layer) : inside (bbox_of N) x y = false -> noop_at b x y k N.
+Proof. exact (ProofsNoopDoc.noop_outside_box b x y k N). Qed.
+Theorem null_if_alpha0 b x y k rc chans alpha at_ :
+  Forall (fun z => z = 0%Z) alpha -> noop_at b x y k (Px rc chans alpha at_).
+Proof. exact (noop_alpha0 b x y k rc chans alpha at_). Qed.
+Theorem null_if_opacity0 x y k (N : layer) :
+  at_op (attrs_of N) = 0%Z \/ at_fill (attrs_of N) = 0%Z -> noop_at false x y k N.
+Proof. exact (noop_opacity0 x y k N). Qed.
+Print Assumptions null_if_opacity0.
+
+(* a transparent CLIPPING layer inserted into the clipping run of a layer inside a group, and an opacity-0
+   group on top of the document *)
+Example ins_example :
+  let at0 := MkAttrs true 255 255 BNormal false None false in
+  let base := Px (0, 0, 2, 1)%Z [[51; 204]%Z] [255; 128]%Z at0 in
+  let clipl := Px (1, 0, 3, 1)%Z [[10; 20]%Z] [64; 255]%Z (MkAttrs true 128 64 BScreen true None false) in
+  let transparent := Px (0, 0, 2, 1)%Z [[9; 9]%Z] [0; 0]%Z (MkAttrs true 255 255 BMultiply true None false) in
+  let ghost := Gr false [base] (MkAttrs true 0 255 BNormal false None false) in
+  ins false 1 0 0 [Gr true [base; transparent; clipl] at0; ghost] [Gr true [base; clipl] at0].
+Proof.
+  cbv zeta. apply ins_group.
+  - apply ins_keep. apply ins_new; [apply noop_alpha0; repeat constructor | left; reflexivity |].
+    apply ins_keep. apply ins_nil.
+  - apply ins_new; [apply noop_opacity0; left; reflexivity | right; exact I | apply ins_nil].
+Qed.
+
 (* ---------------- range *)
 Theorem results_in_unit_interval (ls : list layer) vp cb ab x y k :
   Forall layer_ok ls -> unit cb -> unit ab ->
@@ -196,8 +249,6 @@ Proof. exact (composite_doc_in_range ls vp cb ab x y k). Qed.
 Print Assumptions results_in_unit_interval.
 
 (* Not proved (the harness checks these relations on the implementation):
-   - insertion of a VISIBLE alpha-0 / opacity-0 layer inside a group at document level: it enlarges the
-     group's bounding box and hence its viewport; the result is unchanged by [viewport_independent] applied
-     inside the group plus [noop_zero_alpha] / [noop_zero_opacity], but the composed statement is not
-     formalised (at the top level of a document it is [dropping_null_elements_is_sound] on the sampled lists);
+   - opacity-0 insertion inside documents that use the knockout flag (there the law is false in general: an
+     opacity-0 layer still knocks out, which is what the flag is for; the harness does not insert there either);
    - compression / reopen independence: two-run tests (see header). *)
